@@ -27,6 +27,8 @@ RULE = (
     "(when its documented precondition holds) either equal the reference or are refused. Non-trivial = a cell that is refused or "
     "that exercises a planner decision (method=None) or a degenerate layout."
 )
+RULE = RULE + (" scan-args leg: groupby_scan x {scan names, Scan instances, reduction names, unknown names, non-scan objects} x chunkings x label kinds x "
+               "{engine=, method=, axis pair, dtype as str / np.dtype}: a result (instance == name) or ValueError / NotImplementedError raised by flox.")
 ASSUMPTIONS = [
     "inputs stay inside the documented contract: aligned shapes, a fill_value whenever a requested label may be absent, blockwise only asserted when every group lies in one block after the automatic rechunk",
     "the eager numpy-engine result is the reference (tied to NumPy by C01)",
